@@ -20,11 +20,13 @@ open Revm Revm.Model Revm.Model.Evm
 structure Snap where
   js : Journal.JState
 
-/-- the account as first loaded from the database, cold -/
+/-- the account as the database holds it, not yet accessed (cold unless pre-warmed by the transaction): the placeholder
+of an address that was first loaded inside a subroutine that failed. It is observably the same as an address that is
+not in the map at all (`Spec.JournalAbs.absAcct` identifies the two). -/
 def pristine (w : World) (a : Nat) : Journal.Acct :=
   match w.db.basic a with
-  | some i => { Journal.Acct.ofInfo i with cold := true }
-  | none => { Journal.Acct.newNotExisting with cold := true }
+  | some i => { Journal.Acct.ofInfo i with cold := !w.js.preloaded a }
+  | none => { Journal.Acct.newNotExisting with cold := !w.js.preloaded a }
 
 /-- start of a subroutine: remember the state; `depth` counts the open subroutines -/
 def checkpoint (w : World) : World × Snap :=
@@ -34,20 +36,32 @@ def checkpoint (w : World) : World × Snap :=
 def commit (w : World) : World :=
   { w with js := { w.js with depth := Journal.decU64 w.js.depth } }
 
-/-- failed subroutine: the saved state comes back — except that, from Spurious Dragon on, a touched 0x03 stays touched -/
+/-- an entry of the state map after a failed subroutine: the account as it was saved; an address that the subroutine
+loaded for the first time (`w.addrs` lists the addresses of the map) stays in the map as an untouched, unaccessed
+placeholder (no observable content) -/
+def restoredBase (w : World) (saved : Journal.JState) (a : Nat) : Option Journal.Acct :=
+  match saved.state a with
+  | some x => some x
+  | none => if w.addrs.contains a then some (pristine w a) else none
+
+/-- the entry of address 0x03 after a failed subroutine: as every other address, except that from Spurious Dragon on
+its touched mark is not rolled back (the mainnet RIPEMD-160 precedent, DESIGN §8) -/
+def restored3 (w : World) (saved : Journal.JState) : Option Journal.Acct :=
+  match w.js.state Journal.PRECOMPILE3 with
+  | some cur =>
+    if decide (w.js.spec ≥ Journal.SPURIOUS_DRAGON) then
+      (restoredBase w saved Journal.PRECOMPILE3).map fun x => { x with touched := cur.touched }
+    else restoredBase w saved Journal.PRECOMPILE3
+  | none => restoredBase w saved Journal.PRECOMPILE3
+
+/-- the state map after a failed subroutine; `acc3` is the entry of address 0x03, computed once per revert -/
+def restoredState (w : World) (saved : Journal.JState) (acc3 : Option Journal.Acct) (a : Nat) : Option Journal.Acct :=
+  if a = Journal.PRECOMPILE3 then acc3 else restoredBase w saved a
+
+/-- failed subroutine: the saved state comes back -/
 def revert (w : World) (c : Snap) : R World :=
-  let saved := c.js
-  let keep3 : Bool := decide (w.js.spec ≥ Journal.SPURIOUS_DRAGON) &&
-    (match w.js.state Journal.PRECOMPILE3 with
-     | some cur => cur.touched
-     | none => false)
-  let js :=
-    if keep3 then
-      match saved.state Journal.PRECOMPILE3 with
-      | some old => Journal.setAcct saved Journal.PRECOMPILE3 { old with touched := true }
-      | none => Journal.setAcct saved Journal.PRECOMPILE3 { pristine w Journal.PRECOMPILE3 with touched := true }
-    else saved
-  pure { w with js := js }
+  let acc3 := restored3 w c.js
+  pure { w with js := { c.js with state := restoredState w c.js acc3 } }
 
 /-- creation: the forward effects of `create_account_checkpoint` (collision test, created / touched marks, endowment,
 nonce 1 from Spurious Dragon on); on collision or overflow the state the creation started from -/
@@ -64,6 +78,7 @@ def snapshotOps : CpOps Snap where
   commit := commit
   revert := revert
   createCheckpoint := createCheckpoint
+  setCode := journalOps.setCode
 
 /-- the execution specification's transaction: `Evm.transactWith` over snapshots -/
 def transact (fuel : Nat) (w : World) (e : Env) (spec : Nat) : R (Outcome × World) :=
